@@ -177,6 +177,16 @@ def run_property(prop, tier="quick", seed=0, out=sys.stdout):
         out.write("  violation %s\n    rule: %s\n    at:   %s\n    what: %s\n" % (key, lst[0].rule.text, lst[0].loc, lst[0].what))
         out.write("VIOLATION property=%s replay=%s\n" % (prop, rp))
         rc = 1
+    st = []
+    if tier == "thorough" and not os.environ.get("VERIF_REPO"):
+        import selftest
+        st = selftest.run(prop)
+        for r in st:
+            if r["status"] == "FAILED":
+                broken.append("self-test: %s expected %s on %s, got keys %s %s" % (r["patch"], r["expect"], prop, r.get("keys"), r.get("broken") or ""))
+        if st:
+            out.write("self-test: %d recorded change(s) for %s: %d as expected, %d skipped (patch no longer applies), %d FAILED\n" % (
+                len(st), prop, sum(1 for r in st if r["status"] == "ok"), sum(1 for r in st if r["status"] == "skipped"), sum(1 for r in st if r["status"] == "FAILED")))
     for b in broken:
         out.write("BROKEN: %s\n" % b)
     if broken and rc == 0:
@@ -220,6 +230,7 @@ def run_property(prop, tier="quick", seed=0, out=sys.stdout):
                              "analysis/sym.py models of core items (atomics, ptr::write*, Option/Result plumbing)"],
             "exhaustive": False,
             "broken": broken,
+            "selftest": st,
         },
         "assumptions": ASSUME.get(prop, []),
         "wall_s": round(time.time() - t0, 2),
